@@ -488,4 +488,45 @@ example :
   constructor <;> rfl
 
 
+/-- a single path laid into the empty dictionary: the chain of one-entry dictionaries -/
+private theorem assocPath_empty_single (p : Path) (hp : p ≠ []) (v : Val) (hv : ∀ kvs, v ≠ .dict kvs) :
+    ∃ d, assocPath (.dict []) p v = .ok d ∧ Leafy d ∧ ∀ r, dictToPaths r d = [(r ++ p, v)] := by
+  induction p with
+  | nil => exact absurd rfl hp
+  | cons k rest ih =>
+    cases rest with
+    | nil =>
+      refine ⟨.dict [(k, v)], by simp [assocPath, KV.set], ?_, ?_⟩
+      · refine Leafy.node _ (by simp) (by simp [KV.Nodup, KV.keys]) ?_
+        intro kv hkv; simp at hkv; subst hkv; exact Leafy.leaf v hv
+      · intro r
+        simp [dictToPaths, dictToPaths.goList, dictToPaths_leaf _ v hv]
+    | cons k2 rest2 =>
+      obtain ⟨c, hc, hl, hd⟩ := ih (by simp)
+      refine ⟨.dict [(k, c)], ?_, ?_, ?_⟩
+      · simp [assocPath, KV.lookup, hc, KV.set]
+      · refine Leafy.node _ (by simp) (by simp [KV.Nodup, KV.keys]) ?_
+        intro kv hkv; simp at hkv; subst hkv; exact hl
+      · intro r
+        simp [dictToPaths, dictToPaths.goList, hd]
+
+/-- **The converse inverse law, one path** (`_partial`: the full converse — a prefix-free *list* of
+paths survives `paths_to_dict` then `dict_to_paths`, up to the grouping of common prefixes — rests on
+the oracle): for every non-empty path and every non-dictionary value, `paths_to_dict [(p, v)]`
+succeeds, builds a dictionary `dict_to_paths` can enumerate (`Leafy`), and `dict_to_paths` gives
+back exactly `[(p, v)]`, whatever root the enumeration starts from. -/
+theorem dictToPaths_pathsToDict_single_partial (p : Path) (hp : p ≠ []) (v : Val)
+    (hv : ∀ kvs, v ≠ .dict kvs) :
+    ∃ d, pathsToDict [(p, v)] = .ok d ∧ Leafy d ∧ ∀ r, dictToPaths r d = [(r ++ p, v)] := by
+  obtain ⟨d, hd, hl, he⟩ := assocPath_empty_single p hp v hv
+  exact ⟨d, by simp [pathsToDict, List.foldlM, hd], hl, he⟩
+
+example : pathsToDict [(["a", "b", "c"], .int 1)] =
+    .ok (.dict [("a", .dict [("b", .dict [("c", .int 1)])])]) := by rfl
+
+/-- … and the hypothesis on the value is needed: a dictionary *value* is enumerated into its own
+leaves, an empty one into nothing (the code agrees: `dict_to_paths((), {'a': {}}) == []`). -/
+theorem dictToPaths_pathsToDict_dict_value_witness :
+    (do let d ← pathsToDict [(["a"], .dict [])]; pure (dictToPaths [] d)) = .ok [] := by rfl
+
 end VivProps.C17
